@@ -28,7 +28,7 @@ def gen_model(seed, opts):
                     bare_nd=opts.get('voi_bare_nd', False))
     if opts.get('scaling'):
         mg.add_output_scaling(rng, md)
-    mg.assign_solvers(rng, md)
+    mg.assign_solvers(rng, md, stack_p=opts.get('stack_p', .7))
     if not legal(md):          # assembled jacobians refuse matrix-free components: use the matrix-free DirectSolver
         for sv in md['solvers'].values():
             if (sv.get('ln') or {}).get('name') == 'direct':
@@ -98,15 +98,15 @@ JAC_TYPES = [None, 'dense', 'csc']
 FORMATS = ['flat_dict', 'dict', 'array']
 
 
-def plan_cfgs(rng, md, n):
+def plan_cfgs(rng, md, n, modes=None):
     """n configurations (mode, linear solver, assembled jacobian type, return format, driver scaling)"""
     cfgs = []
-    modes = ['fwd', 'rev', 'auto']
+    modes = list(modes or ['fwd', 'rev', 'auto'])
     rng.shuffle(modes)
     lns = LN_VARIANTS[:]
     rng.shuffle(lns)
     for k in range(n):
-        cfgs.append({'mode': modes[k % 3], 'ln': lns[k % len(lns)], 'fmt': FORMATS[rng.randrange(3)],
+        cfgs.append({'mode': modes[k % len(modes)], 'ln': lns[k % len(lns)], 'fmt': FORMATS[rng.randrange(3)],
                      'scaled': rng.random() < .5, 'jac': rng.choice(JAC_TYPES),
                      'coloring': rng.choice([None, None, 'direct', 'subst'])})
     return cfgs
@@ -136,7 +136,7 @@ def observe_case(seed, opts, ncfg, want_runs=True, want_totals=True):
             p.run_model()
             runs.append(dict(so.observe_run(p, md, ref), chk=[i['id'] + 1 for i in md['ins']], fix=True))
         if want_totals:
-            for c in plan_cfgs(rng, md, ncfg):
+            for c in plan_cfgs(rng, md, ncfg, opts.get('modes')):
                 m = apply_cfg(md, c)
                 if not legal(m):
                     meta['cfgs'].append(dict(c, skipped='illegal'))
